@@ -243,12 +243,17 @@ def h_step(opname: str, depth_kind: str, requires_grad: bool):
                 c.oblige("same Adam learning-rate scale", _sreal(fa).z == _sreal(f_before_adam).z, info={**info, "claim": "lr"})
                 c.oblige("same SGD learning-rate scale", _sreal(fs).z == _sreal(f_before_sgd).z, info={**info, "claim": "lr"})
             # the library optimizers accept it
-            acc = True
+            acc, groups = True, []
             try:
-                uo.scaled_parameters([q], uo.lr_scale_func_adam, lr=1.0)
+                groups = list(uo.scaled_parameters([q], uo.lr_scale_func_adam, lr=1.0))
             except ValueError:
                 acc = False
+            # accepted = it ends up in exactly one optimizer group (frozen or not), carrying the original's scale
+            acc = acc and len(groups) == 1 and len(groups[0]["params"]) == 1 and groups[0]["params"][0] is q
             c.oblige("accepted by the library optimizers", z3.BoolVal(acc), info={**info, "claim": "accepted"})
+            if acc and ok_data:
+                c.oblige("its optimizer group carries the original's learning-rate scale", _sreal(groups[0]["lr"]).z == _sreal(f_before_adam).z,
+                         info={**info, "claim": "lr"})
 
     return h
 
@@ -294,9 +299,17 @@ def run_history(ops: Tuple[str, ...], tag: str, depth: Optional[int]) -> List[st
         if uo.lr_scale_func_adam(q) != f0:
             bad.append("learning-rate scale changed")
         try:
-            uo.scaled_parameters([q], uo.lr_scale_func_adam, lr=1.0)
-        except ValueError:
-            bad.append("rejected by optimizer")
+            groups = list(uo.scaled_parameters([q], uo.lr_scale_func_adam, lr=1.0))
+            if not (len(groups) == 1 and len(groups[0]["params"]) == 1 and groups[0]["params"][0] is q):
+                bad.append(f"not given an optimizer group of its own ({len(groups)} groups)")
+            elif abs(float(groups[0]["lr"]) - float(f0)) > 1e-12 * abs(float(f0)):
+                bad.append(f"optimizer group lr {float(groups[0]['lr'])!r} instead of {float(f0)!r}")
+            for cls in (uo.Adam, uo.AdamW, uo.SGD):
+                opt = cls([q], lr=1.0)
+                if sum(len(g["params"]) for g in opt.param_groups) != 1:
+                    bad.append(f"{cls.__name__} does not hold it")
+        except ValueError as e:
+            bad.append(f"rejected by optimizer ({e})")
     if q.requires_grad != exp_rg:
         bad.append(f"requires_grad is {q.requires_grad}, expected {exp_rg}")
     if q.dtype != exp_dt:
